@@ -68,7 +68,7 @@ class x12xml(object):
             if child_node.usage == 'N' or _ele.is_empty():
                 pass  # Do not try to ouput for invalid or empty elements
             elif child_node.is_composite():
-                (xname, attrib) = self._get_comp_info(seg_node_id)
+                (xname, attrib) = self._get_comp_info('%s%02i' % (seg_node.id, i + 1))
                 self.writer.push(xname, attrib)
                 comp_data = seg_data.get('{idx:02d}'.format(idx=i + 1))
                 for j in range(len(comp_data)):
@@ -114,7 +114,7 @@ class x12xml(object):
             if child_node.usage == 'N' or _ele.is_empty():
                 pass  # Do not try to ouput for invalid or empty elements
             elif child_node.is_composite():
-                (xname, attrib) = self._get_comp_info(seg_node.id)
+                (xname, attrib) = self._get_comp_info('%s%02i' % (seg_node.id, i + 1))
                 self.writer.push(xname, attrib)
                 comp_data = seg_data.get('{idx:02d}'.format(idx=i + 1))
                 for j in range(len(comp_data)):
